@@ -2,14 +2,15 @@
 # tools/with_patch.sh <patch.diff | -R <commit>> -- <command...>
 # applies a patch (or the reverse of a commit) to /repo's working tree, runs the command, restores the tree.
 set -u
+R=${VF_REPO:-/repo}
 if [ "$1" = "-R" ]; then
-  git -C /repo show "$2" > /tmp/.wp_patch.$$ ; APPLY="git -C /repo apply -R /tmp/.wp_patch.$$"; shift 2
+  git -C $R show "$2" > /tmp/.wp_patch.$$ ; APPLY="git -C $R apply -R /tmp/.wp_patch.$$"; shift 2
 else
-  APPLY="git -C /repo apply $(realpath "$1")"; shift
+  APPLY="git -C $R apply $(realpath "$1")"; shift
 fi
 [ "$1" = "--" ] && shift
-if [ -n "$(git -C /repo status --porcelain -- eyecite)" ]; then echo "repo dirty"; exit 3; fi
+if [ -n "$(git -C $R status --porcelain -- eyecite)" ]; then echo "repo dirty"; exit 3; fi
 $APPLY || { echo "patch does not apply"; exit 3; }
 "$@"; rc=$?
-git -C /repo checkout -- . ; rm -f /tmp/.wp_patch.$$
+git -C $R checkout -- . ; rm -f /tmp/.wp_patch.$$
 exit $rc
